@@ -159,6 +159,26 @@ def requests(seed=1, size="quick"):
             for (w1, r1, ub, uf) in ((2, 2, 1, 1), (0.5, 0, 1, 3), (5, 1, 2, 0.5), (0, 0, 1, 1)):
                 out.append(("hopt %d %d %d 0 %s 0 %s %s %s" % (lmax, c0, c1, fr(w1), fr(r1), fr(ub), fr(uf)),
                             lambda lmax=lmax, c0=c0, c1=c1, w1=w1, r1=r1, ub=ub, uf=uf: thopt(lmax, c0, c1, 0, w1, 0, r1, ub, uf)))
+    def seqof(kind, l, cm, rd, wd, uf, ub):
+        try:
+            with contextlib.redirect_stdout(io.StringIO()):
+                f = {"revolve": rvm.revolve, "disk": drm.disk_revolve, "periodic": pdr.periodic_disk_revolve}[kind]
+                sq = f(l, cm, rd, wd, uf, ub)
+                ops2 = []
+                for op in sq:
+                    ix = op.index
+                    ops2.append("%s:%d:%d" % (op.type, ix[0], ix[1]) if isinstance(ix, (list, tuple)) else "%s:%d" % (op.type, ix))
+            return ",".join(ops2)
+        except Exception as e:   # noqa: BLE001
+            return "raise:" + type(e).__name__
+    for kind in ("revolve", "disk", "periodic"):
+        for l in (0, 1, 2, 3, 5, 8, 13, 21):
+            for cm in (0, 1, 2, 3, 5):
+                for (rd, wd, uf, ub) in ((2, 2, 1, 1), (0.25, 0.25, 1, 1), (1, 0.5, 3, 1), (5, 7, 1, 2)):
+                    if kind == "periodic" and cm == 0:
+                        continue
+                    out.append(("seq %s %d %d %s %s %s %s" % (kind, l, cm, fr(rd), fr(wd), fr(uf), fr(ub)),
+                                lambda kind=kind, l=l, cm=cm, rd=rd, wd=wd, uf=uf, ub=ub: seqof(kind, l, cm, rd, wd, uf, ub)))
     for x in range(0, 8):
         for y in range(-1, 8):
             out.append(("beta %d %d" % (x, y), lambda x=x, y=y: _val(lambda: bf.beta(x, y))))
